@@ -11,6 +11,7 @@ import (
 
 	configv1 "github.com/istio-ecosystem/authservice/config/gen/go/v1"
 	mockv1 "github.com/istio-ecosystem/authservice/config/gen/go/v1/mock"
+	oidcv1 "github.com/istio-ecosystem/authservice/config/gen/go/v1/oidc"
 	"github.com/istio-ecosystem/authservice/internal/server"
 	"github.com/istio-ecosystem/authservice/verif/sim"
 )
@@ -100,8 +101,17 @@ func c07Ref(rules []c07Rule, path string) bool {
 
 func c07Filter(rules []c07Rule) *server.ExtAuthZFilter {
 	cfg := &configv1.Config{
+		// whatever is triggered is denied by the mock; the OIDC filter behind it is never reached and only lends the
+		// chain a callback ("/ab") and a logout path ("/ba") that the enumerated targets hit: those paths are
+		// subject to the rules like any other
 		Chains: []*configv1.FilterChain{{Name: "deny", Filters: []*configv1.Filter{
-			{Type: &configv1.Filter_Mock{Mock: &mockv1.MockConfig{Allow: false}}}}}},
+			{Type: &configv1.Filter_Mock{Mock: &mockv1.MockConfig{Allow: false}}},
+			{Type: &configv1.Filter_Oidc{Oidc: &oidcv1.OIDCConfig{
+				AuthorizationUri: "https://idp.example/auth", TokenUri: "https://idp.example/token", CallbackUri: "https://app.example/ab",
+				JwksConfig: &oidcv1.OIDCConfig_Jwks{Jwks: "{\"keys\":[]}"}, ClientId: "c", ClientSecretConfig: &oidcv1.OIDCConfig_ClientSecret{ClientSecret: "s"},
+				Scopes: []string{"openid"}, IdToken: &oidcv1.TokenConfig{Header: "authorization", Preamble: "Bearer"},
+				Logout: &oidcv1.LogoutConfig{Path: "/ba", RedirectUri: "https://idp.example/logout"},
+			}}}}}},
 	}
 	for _, r := range rules {
 		tr := &configv1.TriggerRule{}
@@ -218,7 +228,7 @@ func c07GenPat(c *sim.Case, label string) c07Pat {
 func TestC07(t *testing.T) {
 	r := sim.NewRun(t, "C07")
 	defer r.Finish()
-	r.Rule = "rule sets x request targets path[?query][#fragment]; exhaustive part: every single-rule set with <=1 excluded and <=1 included pattern from a fixed pool x every target up to a length over {/ a b . ? # :}; random part: 0-3 rules with 0-3 patterns per list and targets to length 8. Non-trivial = target has a query or fragment AND some pattern of the rule set matches the full target differently from its path component; distinct = distinct (rules, target)."
+	r.Rule = "rule sets x request targets path[?query][#fragment]; exhaustive part: every single-rule set with <=1 excluded and <=1 included pattern from a fixed pool x every target up to a length over {/ a b . ? # :}; random part: 0-3 rules with 0-3 patterns per list and targets to length 8, followed by up to six further requests on the same filter instance whose targets are built from the rules' own patterns. The judged chain holds a mock filter that denies and, behind it, an OIDC filter whose callback (/ab) and logout (/ba) paths are among the enumerated targets. Non-trivial = target has a query or fragment AND some pattern of the rule set matches the full target differently from its path component; distinct = distinct (rules, target)."
 	r.Assumptions = []string{
 		"Envoy places path and query together in HttpRequest.path (documented ext_authz behaviour)",
 		"regex leaf semantics = Go RE2 unanchored search, invalid expression = no match (what the code documents by using regexp.MatchString)",
@@ -260,6 +270,20 @@ func TestC07(t *testing.T) {
 			}
 		}
 		c07Judge(c, cache, rules, target)
+		// further requests on the SAME filter instance: the verdict is a function of rules and path, not of what was
+		// asked before. Targets are built from the patterns themselves so that patterns in the middle of a list are hit.
+		for i, n := 0, []int{0, 0, 3, 6}[sim.Pick(c, "more-requests", 4)]; i < n && nr > 0; i++ {
+			ru := rules[sim.Pick(c, "more.rule", nr)]
+			list := ru.In
+			if len(list) == 0 || (len(ru.Ex) > 0 && sim.Bool(c, "more.ex")) {
+				list = ru.Ex
+			}
+			t2 := sim.PickStr(c, "more.fixed", "/ab", "/ba", "/ab?x", "/")
+			if len(list) > 0 && sim.Weighted(c, "more.from-pattern", 1, 3) == 1 {
+				t2 = list[sim.Pick(c, "more.idx", len(list))].S + sim.PickStr(c, "more.tail", "", "a", "?a", "#b")
+			}
+			c07Judge(c, cache, rules, t2)
+		}
 	}
 	parts := map[string]func(*sim.Case){
 		"exh-small": exh(15, 4), "exh-full": exh(len(c07Pool), 5), "random": random,
